@@ -274,8 +274,15 @@ pub fn check(c: &Case, obs: &mut Obs) -> Verdict {
             vfail!("{sy}: taxable gain {} but max(0, net - exemption) = {}", y.taxable_gain(y.exempt_amount), taxable);
         }
     }
-    if years_seen != needed {
+    // every year with a sale is listed; a listed year without sales (say, dividends only) must
+    // then have no disposals
+    if !needed.is_subset(&years_seen) {
         vfail!("tax years in report {years_seen:?} but years with sales {needed:?}");
+    }
+    for y in &report.tax_years {
+        if !needed.contains(&(y.period.start_year() as i32)) && !y.disposals.is_empty() {
+            vfail!("tax year {} has no sale but lists disposals", y.period.start_year());
+        }
     }
     obs.nontrivial = mixed || multifill || custom;
     obs.class_if(mixed, "year_with_gain_and_loss");
